@@ -4,6 +4,7 @@ import (
 	"encoding/json"
 	"fmt"
 	"go/ast"
+	"go/token"
 	"go/types"
 	"os"
 	"path/filepath"
@@ -611,4 +612,41 @@ func (w *World) decidesOnKnownInputs(verifDir, host string, a *Atoms) bool {
 		}
 	}
 	return true
+}
+
+// hostPos: where, inside fi's own declaration, node n takes effect: n's own position when
+// it is written in fi, otherwise the position of the call in fi that (through new
+// functions) leads to it. NoPos if it is not reached from fi.
+func (w *World) hostPos(fi *FuncInfo, n ast.Node) token.Pos {
+	return w.hostPosRec(fi, n, 0)
+}
+
+func (w *World) hostPosRec(fi *FuncInfo, n ast.Node, depth int) token.Pos {
+	if n.Pos() >= fi.Decl.Pos() && n.End() <= fi.Decl.End() {
+		return n.Pos()
+	}
+	if depth > 6 {
+		return token.NoPos
+	}
+	w.buildASTNewIndex()
+	owner := w.ownerOf(fi, n)
+	if owner == fi {
+		return token.NoPos
+	}
+	for _, s := range w.astSites[owner.Key] {
+		if p := w.hostPosRec(fi, s.Call, depth+1); p.IsValid() {
+			return p
+		}
+	}
+	return token.NoPos
+}
+
+// hostPosOfInstr: the same for an SSA instruction.
+func (w *World) hostPosOfInstr(fi *FuncInfo, ins ssa.Instruction) token.Pos {
+	for _, h := range w.hostCallsIn(fi.SSA, ins) {
+		if h.Pos().IsValid() {
+			return h.Pos()
+		}
+	}
+	return ins.Pos()
 }
